@@ -6,9 +6,9 @@ import (
 	"go/ast"
 	"go/token"
 	"go/types"
-	"regexp"
 	"os"
 	"path/filepath"
+	"regexp"
 	"sort"
 	"strconv"
 	"strings"
@@ -243,7 +243,12 @@ func ruleUnionTagDecision(c *core.Ctx) {
 				for _, st := range flattenStmts(body.List) {
 					switch s := st.(type) {
 					case *ast.IfStmt:
-						be, ok := ast.Unparen(s.Cond).(*ast.BinaryExpr)
+						// the test may be named by an explaining local (`overlaps := seen&kinds != 0; if overlaps {`)
+						cond := ast.Unparen(s.Cond)
+						if id, isId := cond.(*ast.Ident); isId {
+							cond = ast.Unparen(singleDefRHS(info, body, id))
+						}
+						be, ok := cond.(*ast.BinaryExpr)
 						if !ok || be.Op != token.NEQ {
 							continue
 						}
@@ -298,6 +303,29 @@ func ruleUnionTagDecision(c *core.Ctx) {
 		}
 		c.Check(found, rule, key+"/overlap test", sd.Pos(), "decides tagged/untagged by `GetJsonDataType(case) & seen != 0`", "no `GetJsonDataType(case) & seen != 0` test found over the union cases: the tagged/untagged decision no longer follows the shared rule")
 	}
+}
+
+// singleDefRHS returns the right-hand side of the only definition of a local in the block (an explaining
+// local), or the identifier itself.
+func singleDefRHS(info *types.Info, body ast.Node, id *ast.Ident) ast.Expr {
+	obj := info.ObjectOf(id)
+	var rhs ast.Expr
+	n := 0
+	ast.Inspect(body, func(m ast.Node) bool {
+		if as, ok := m.(*ast.AssignStmt); ok && len(as.Lhs) == len(as.Rhs) {
+			for i, l := range as.Lhs {
+				if li, ok := l.(*ast.Ident); ok && info.ObjectOf(li) == obj {
+					n++
+					rhs = as.Rhs[i]
+				}
+			}
+		}
+		return true
+	})
+	if n == 1 && rhs != nil {
+		return rhs
+	}
+	return id
 }
 
 func flattenStmts(list []ast.Stmt) []ast.Stmt {
@@ -435,8 +463,8 @@ func ruleKindTests(c *core.Ctx) {
 						if kv, ok := el.(*ast.KeyValueExpr); ok {
 							v = kv.Value
 						}
-						if _, isLit := v.(*ast.CompositeLit); isLit {
-							return true // an outer literal (the table itself)
+						if _, isLit := v.(*ast.CompositeLit); isLit && kindOf(v) != "" {
+							return true // an outer literal (the table itself); a nested list of strings belongs to the row
 						}
 						if k := kindOf(v); k != "" {
 							kind = k
